@@ -45,3 +45,14 @@ impl<T> SerialMap<T> {
         }
     }
 }
+
+#[cfg(feature = "verif-hooks")]
+impl<T> SerialMap<T> {
+    pub(crate) fn verif_iter(&self) -> impl Iterator<Item = (u32, &T)> {
+        self.elems.iter().map(|(serial, elem)| (*serial, elem))
+    }
+
+    pub(crate) fn verif_next(&self) -> u32 {
+        self.next
+    }
+}
